@@ -210,6 +210,7 @@ def oracle_items(ctx, n, salt):
                 items.append({"kind": "unimported", "files": f2, "p": p, "nd": nd})
     items += chain_items(ctx, n // 3 + 1, salt)
     items += shared_state_items(ctx, n // 2 + 4, salt)
+    items += foreign_ns_items(ctx)
     return items
 
 
@@ -290,8 +291,75 @@ def reexport_orders(ctx, n, salt):
     return items
 
 
+CFG_SRC = ("limit :: 10\n\nget :: fn -> int do\n    ret limit\nend\n\nT :: blob { limit: int }\n")
+# worker modules that import NOTHING and mention the namespace name `config`: must be rejected
+NS_REJECT = [
+    ("value", "peek :: fn -> int do\n    ret config.limit\nend\n"),
+    ("call", "peek :: fn -> int do\n    ret config.get()\nend\n"),
+    ("global-init", "copy :: config.limit\n\npeek :: fn -> int do\n    ret copy\nend\n"),
+    ("type", "peek :: fn -> int do\n    t :: config.T { limit: 4 }\n    ret t.limit\nend\n"),
+    ("param-type", "first :: fn t: config.T -> int do\n    ret t.limit\nend\n\npeek :: fn -> int do\n    ret 1\nend\n"),
+    ("closure", "peek :: fn -> int do\n    f :: fn -> int do\n        ret config.limit\n    end\n    ret f()\nend\n"),
+]
+# worker modules that import nothing and have a LOCAL called `config` (a blob with a field `limit`): `config.limit`
+# is a field access, whatever namespaces other files have imported
+NS_LOCAL = [
+    ("param", "run :: fn config: Config -> int do\n    ret config.limit\nend\n\n"
+              "peek :: fn -> int do\n    ret run(Config { limit: 3 })\nend\n"),
+    ("local", "peek :: fn -> int do\n    config := Config { limit: 3 }\n    ret config.limit\nend\n"),
+    ("closure-param", "peek :: fn -> int do\n    f :: fn config: Config -> int do\n        ret config.limit\n    end\n"
+                      "    ret f(Config { limit: 3 })\nend\n"),
+    ("block-local", "peek :: fn -> int do\n    out := 0\n    do\n        config :: Config { limit: 3 }\n"
+                    "        out = config.limit\n    end\n    ret out\nend\n"),
+    ("branch-local", "peek :: fn -> int do\n    out := 0\n    if out == 0 do\n        config :: Config { limit: 3 }\n"
+                     "        out = config.limit + config.limit\n    end\n    ret out\nend\n"),
+    ("assign-field", "peek :: fn -> int do\n    config := Config { limit: 3 }\n    config.limit = 4\n    ret config.limit\nend\n"),
+    ("global", "config :: Config { limit: 3 }\n\npeek :: fn -> int do\n    ret config.limit\nend\n"),
+]
+
+
+def foreign_ns_items(ctx):
+    """a NAMESPACE name that only ANOTHER file imports: (kind unimported-ns) a module that imports nothing and
+    writes `config.x` must be rejected; (kind foreign-ns-local) a module that imports nothing and has a parameter /
+    local / global called `config` reads its field -- the project behaves like the single-file program.  The
+    importing file is main (its `use` written before or after the `use` of the worker) or a sibling module
+    discovered before or after the worker; the import is `use config`, an alias `use settings as config`, or a
+    folder `use config/`.  All combinations, always."""
+    items = []
+    for imp_kind in ("file", "alias", "folder"):
+        path, use = {"file": ("/config.sy", "use config"), "alias": ("/settings.sy", "use settings as config"),
+                     "folder": ("/config/exports.sy", "use config/")}[imp_kind]
+        for importer in ("main", "sibling"):
+            for first in (True, False):
+                base = {path: rg.EXT_PRINT + CFG_SRC}
+                if importer == "main":
+                    uses = [use, "use worker"] if first else ["use worker", use]
+                    shown = "config.limit"
+                else:
+                    uses = ["use sibling", "use worker"] if first else ["use worker", "use sibling"]
+                    base["/sibling.sy"] = rg.EXT_PRINT + use + "\n\nsib :: fn -> int do\n    ret config.limit + 1\nend\n"
+                    shown = "sibling.sib()"
+                main = (rg.EXT_PRINT + "\n".join(uses) + "\n\nstart :: fn do\n    print(%s)\n    print(worker.peek())\nend\n" % shown)
+                where = "%s/%s/%s" % (imp_kind, importer, "before" if first else "after")
+                for shape, src in NS_REJECT:
+                    files = dict(base)
+                    files["/main.sy"] = main
+                    files["/worker.sy"] = rg.EXT_PRINT + src
+                    items.append({"kind": "unimported-ns", "files": files, "shape": shape, "where": where})
+                for shape, src in NS_LOCAL:
+                    files = dict(base)
+                    files["/main.sy"] = main
+                    files["/worker.sy"] = rg.EXT_PRINT + "Config :: blob { limit: int }\n\n" + src
+                    single = (rg.EXT_PRINT + "cfg_limit :: 10\n\nConfig :: blob { limit: int }\n\n" + src
+                              + "\nstart :: fn do\n    print(%s)\n    print(peek())\nend\n"
+                              % ("cfg_limit" if importer == "main" else "cfg_limit + 1"))
+                    items.append({"kind": "foreign-ns-local", "single": rg.single(single, False), "files": files,
+                                  "shape": shape, "where": where})
+    return items
+
+
 def judge(it, res):
-    if it["kind"] in ("layout", "reexport", "reexport-ns", "shared-state"):
+    if it["kind"] in ("layout", "reexport", "reexport-ns", "shared-state", "foreign-ns-local"):
         a, b = res
         if a == b:
             return None
@@ -301,6 +369,10 @@ def judge(it, res):
     if it["kind"] == "unimported":
         (a,) = res
         return None if a[0] == "ERR" else "a global of another module is visible without an import"
+    if it["kind"] == "unimported-ns":
+        (a,) = res
+        return None if a[0] == "ERR" else ("a module that imports nothing uses the namespace name `config` (%s, imported only by "
+                                           "another file: %s) and is accepted" % (it["shape"], it["where"]))
     if it["kind"] == "reexport-reject":
         (a,) = res
         return None if a[0] == "ERR" else "a re-export project with a %s is accepted" % (
@@ -312,14 +384,15 @@ def classify(it, v):
     # the recorded finding is specific: the single-file program is accepted and RUNS, the layout with a from-import
     # of a re-exported name is REJECTED at compile time (name resolution: "Cannot find .. in namespace ..").  Any
     # other disagreement in these families (different run, different error class, rejected single file) is new.
-    if it["kind"] in ("reexport", "reexport-ns") and v and v.startswith("single file ('OK'") \
+    # (and only the FROM-import: `use m` + `m.x` works in every order, by the finding's own text)
+    if it["kind"] == "reexport" and v and v.startswith("single file ('OK'") \
             and "multi-file layout ('ERR', 'Compile')" in v:
         return "from-import-of-reexport-depends-on-module-order"
     return None
 
 
 def lines_of(it):
-    if it["kind"] in ("layout", "reexport", "reexport-ns", "shared-state"):
+    if it["kind"] in ("layout", "reexport", "reexport-ns", "shared-state", "foreign-ns-local"):
         return [it["single"], rg.case(it["files"], it.get("main", "/main.sy"), False)]
     return [rg.case(it["files"], it.get("main", "/main.sy"), False)]
 
@@ -374,7 +447,11 @@ def always(ctx):
                            "missing at the end of the chain and two definitions under one name are rejected in every order; every layout with the main file given as an "
                            "absolute path, a bare name (main.sy), ./main.sy or proj/main.sy (the file map keyed accordingly); a module "
                            "with mutable state reached once relatively and once through a `/`-rooted path (file or exports.sy, "
-                           "from sub-folders) must be loaded once"}
+                           "from sub-folders) must be loaded once; a namespace name that only ANOTHER file imports (main or a "
+                           "sibling, discovered before or after; plain, alias, folder): a module that imports nothing and "
+                           "writes `config.x` (value, call, global initialiser, type, parameter type, closure) is rejected, and "
+                           "a parameter / local / closure parameter / block or branch local / global called `config` keeps its "
+                           "field access (same trace as the single-file program)"}
 
 
 def describe(it, v):
